@@ -4,7 +4,7 @@ from __future__ import annotations
 
 import ast
 
-from ..execmodel import ENGINE_MODES, ExecHooks, make_session
+from ..execmodel import ENGINE_MODES, ExecHooks, R, make_session
 from ..interp import explore
 from ..values import Const, Obj, Seq, Str, Sym, Tup, Lst, tagof
 from .common import site_loc, traces
@@ -30,10 +30,10 @@ CUR = ("cursor", "FakeSnowflakeCursor")
 
 def _session(table, index, dict_result=False):
     duck, conn, cur = make_session()
-    cur.attrs["_arrow_table"] = table
-    cur.attrs["_arrow_table_fetch_index"] = index
-    cur.attrs["_use_dict_result"] = Const(dict_result)
-    cur.attrs["_arraysize"] = Sym("ARRAYSIZE", typ="int", truthy=True)
+    cur.attrs[R().table] = table
+    cur.attrs[R().index] = index
+    cur.attrs[R().dict_flag] = Const(dict_result)
+    cur.attrs[R().arraysize] = Sym("ARRAYSIZE", typ="int", truthy=True)
     return duck, conn, cur
 
 
@@ -66,7 +66,7 @@ def rule_reset(ctx):
                 n += 1
                 a = tr.cur.attrs
                 if tr.path.outcome == "raise":
-                    bad = [k for k in ("_arrow_table", "_arrow_table_fetch_index", "_rowcount")
+                    bad = [k for k in (R().table, R().index, R().rowcount)
                            if not (isinstance(a.get(k), Const) and a[k].v is None)]
                     ok = not bad
                     ctx.ob("C05.a", f"{kind} failing with {mode}: old result set discarded", ok, "fakesnow/cursor.py", str(bad))
@@ -75,8 +75,8 @@ def rule_reset(ctx):
                                       f"when {kind} fails ({mode}) the cursor still holds the previous statement's `{bad[0]}`: "
                                       f"a later fetch would hand out rows of the old result set")
                 else:
-                    idx = a.get("_arrow_table_fetch_index")
-                    tab = a.get("_arrow_table")
+                    idx = a.get(R().index)
+                    tab = a.get(R().table)
                     ok = isinstance(idx, Const) and idx.v is None and isinstance(tab, Obj) and tab.kind == "arrow" and tab.name != "old_table"
                     ctx.ob("C05.a", f"{kind}: new result set, fetch index unset", ok, "fakesnow/cursor.py", f"{tagof(idx)} {tagof(tab)}")
                     if not ok:
@@ -237,13 +237,13 @@ def rule_slice(ctx):
                         pos = list(sl[0][2])
                         off = kw.get("offset", pos[0] if pos else None)
                         ln = kw.get("length", pos[1] if len(pos) > 1 else None)
-                        new_idx = cur.attrs.get("_arrow_table_fetch_index")
+                        new_idx = cur.attrs.get(R().index)
                         idx_falsy = any(t == "truthy(INDEX)" and v is False for t, v in p.assumed)
                         # all comparisons are on linear forms, so `start = idx or 0; idx = start + n` is the same as `idx += n`
                         cur_idx = Const(0) if (idx_name == "unset" or idx_falsy) else IDX
                         if not lin_eq(off, cur_idx):
                             probs.append(f"offset `{tagof(off)}` is not {'0 when no row has been fetched' if cur_idx is not IDX else 'the running index'}")
-                        want_len = size if size_name == "given" else cur.attrs.get("_arraysize")
+                        want_len = size if size_name == "given" else cur.attrs.get(R().arraysize)
                         if not lin_eq(ln, want_len):
                             probs.append(f"length `{tagof(ln)}` is not {'the size argument' if size_name == 'given' else 'arraysize'}")
                         got_new = lin(new_idx)
@@ -263,7 +263,7 @@ def rule_slice(ctx):
     getter = m.functions.get("FakeSnowflakeCursor.arraysize")
     def run_set(I):
         duck, conn, cur = _session(_table(), Const(None))
-        cur.attrs["_arraysize"] = Const(1)
+        cur.attrs[R().arraysize] = Const(1)
         if setter is None:
             return Const(None)
         from ..values import Func
